@@ -41,6 +41,35 @@ ASSUMPTIONS = [
 ]
 
 
+THEOREM_CLASSES = {
+    "C15_generator_facts": "tripwire",
+    "C15_defer_compile_correct": "main",
+    "C15_close_desugar": "definitional",
+    "C15_desugar_preserves_semantics": "corollary",
+    "C15_lifo_order": "corollary",
+    "C15_each_defer_once": "corollary",
+    "C15_unreached_defer_never": "corollary",
+    "C15_return_value_fixed_before_cleanup": "definitional",
+    "C15_ref_never_out_of_fuel": "corollary",
+    "C15_tgt_never_out_of_fuel": "corollary",
+    "C15_visit_close_any_order": "corollary",
+}
+UNPROVED = [
+    "`accepted` = what the analyzer accepts of the mini-language: not a theorem; tied by the accepted-vs-`nelua --analyze` stream (programs with exits placed anywhere) and 6 must-reject probes",
+    "several returned values (`_mulret` path of visitors.Return): not in the model; exercised by the printer's two-value return mode (trace + tokens), testing only",
+    "the `goto _doexprlabel` omission rule (needgoto): texec ignores the flag, so the main theorem is insensitive to it; tied by the scraped fact, the token comparison and the run-time traces (seeded change C15-C is caught that way)",
+    "visit_close position bookkeeping: proved order-independent on a separate list model (C15_visit_close_any_order), linked to the code by a regex fact and the correspondence, not to `desugar_block`",
+    "the reference semantics is the specification by construction; independent voice only for the Lua-expressible subset (<close>, no defer/continue/switch/do-expression) run by the bundled Lua 5.4",
+    "`for ... in`, recursion, goto, polymorphic/generic function bodies, `require`d files: not generated; main-chunk programs compared by trace only",
+    "deferred blocks containing an early `in` or a break inside a switch are not generated (duplicate C labels when emitted twice: C03 matter)",
+]
+MANIFEST_ENTRY = {
+    "text": "proof, partial: Coq theorem for ALL programs of the mini-language (do/if/while/repeat/for/switch+fallthrough/function/do-expression, defers nested in defers, <close> declarations, every exit kind, any depth) that the analyzer's placement rules accept and ALL condition oracles: the generator's statically stitched clean-up produces exactly the trace and returned value of the reference semantics (each executed defer once, innermost first, after the returned value, `until` before the body's defers); corollaries LIFO / once / never, Fuel unreachable, visit_close order-independent. Rest on differential testing only: that `accepted` is the analyzer's acceptance, multi-value returns, the goto-omission rule of `in`, polymorphic/required code.",
+    "note": "trusted: Coq 8.16.1 kernel; the hand-written model of cgenerator.lua's stitching tied to /repo by token-by-token comparison with the emitted C, run-time traces, Lua 5.4 as a third voice on the <close> subset and regex facts in Gen.v (tripwire) - all testing; abstraction of C temporaries (_ret/_expr/_repeat_stop) into compound target statements; extraction (ExtrOcamlBasic), OCaml driver, Python generator/printer/tokenizer, gcc; no cross-property files",
+    "technique": "machine-checked proof in Coq over an executable model + extracted-model/implementation correspondence",
+}
+
+
 # ------------------------------------------------------------------ (T) scrape
 def gen(ctx):
     ast = vlib.repo_read("lualib/nelua/astdefs.lua")
@@ -193,7 +222,7 @@ def run_model(driver, lines):
     outv = []
     for l in res[:len(lines)]:
         parts = l.split("\t")
-        if len(parts) != 3:
+        if len(parts) != 4:
             raise RuntimeError("model driver output: %r" % l[:200])
         parts[2] = norm_tokens(parts[2])
         outv.append(parts)
@@ -206,16 +235,18 @@ def build_file(work, idx, tests, interp, seed=0, toplevel=False):
     shutil.rmtree(d, ignore_errors=True)
     os.makedirs(d)
     src = os.path.join(d, "p%d.nelua" % idx)
+    pairs = set()
     with open(src, "w") as f:
         if toplevel:
             f.write(c15gen.print_program_toplevel(tests[0][1], __import__("random").Random(seed)))
         else:
-            f.write(c15gen.print_program(tests, __import__("random").Random(seed)))
+            text, pairs = c15gen.print_program_ex(tests, __import__("random").Random(seed))
+            f.write(text)
     exe = os.path.join(d, "p%d" % idx)
     rc, out, err = vlib.nelua_build(src, exe, cache_dir=os.path.join(d, "cache"), interp=interp)
     cfile = os.path.join(d, "cache", "p%d.c" % idx)
     ctext = vlib.read(cfile) if os.path.exists(cfile) else ""
-    return {"rc": rc, "log": (out + err)[-3000:], "exe": exe, "src": src, "funcs": c15gen.c_functions(ctext)}
+    return {"rc": rc, "log": (out + err)[-3000:], "exe": exe, "src": src, "funcs": c15gen.c_functions(ctext), "pairs": pairs}
 
 
 def run_real(exe, i, orc):
@@ -272,6 +303,16 @@ def correspond(ctx):
             tests.append((void, body, oracles_for(rng, norc), name, None, False))
         files.append(tests)
 
+    # Lua-expressible subset (<close> variables, no defer/continue/switch/do-expression): also run as Lua 5.4 by
+    # the bundled interpreter - an independent third voice for the reference semantics of to-be-closed variables
+    lg = c15gen.Gen(rng, lua_subset=True)
+    lua_tests = []
+    for _ in range(ctx.scale(40, 400)):
+        void, body = lg.program()
+        lua_tests.append((void, body, oracles_for(rng, norc), "lua-subset", None, False))
+    lua_file_index = len(files)
+    files.append(lua_tests)
+
     # main-chunk stream: one void program per file, its body is the top level of the file
     for _ in range(ctx.scale(6, 60)):
         g = c15gen.Gen(rng)
@@ -302,6 +343,36 @@ def correspond(ctx):
                           "the real compiler/gcc rejected a generated C15 program file (%s): %s" % (bld["src"], bld["log"][-600:]),
                           detail={"log": bld["log"], "source": bld["src"]}, failing_input=False)
 
+    # ---- third voice: the Lua-subset file under the bundled Lua 5.4 interpreter
+    lua_src = os.path.join(work, "lua_subset.lua")
+    with open(lua_src, "w") as f:
+        f.write(c15gen.print_lua([(t[0], t[1]) for t in lua_tests]))
+
+    def lua_of(a):
+        fi, ti, o = a
+        if fi != lua_file_index:
+            return None
+        rc, out, err = vlib.run_lua(lua_src, [str(ti)] + [str(x) for x in o], interp=interp, timeout=20)
+        lines = [l for l in out.split("\n") if l]
+        end = lines[-1] if lines else "?"
+        return {"Z": "N", "X": "A"}.get(end, "?rc%d %s" % (rc, err[-100:])) + ";" + " ".join(l for l in lines if l not in ("X", "Z"))
+    with concurrent.futures.ThreadPoolExecutor(max_workers=4) as ex:
+        luas = list(ex.map(lua_of, index))
+    n_lua = n_lua_bad = 0
+    for (fi, ti, o), (ref, tgt, mtoks, _acc), lua in zip(index, model, luas):
+        if lua is None:
+            continue
+        n_lua += 1
+        if lua != ref:
+            n_lua_bad += 1
+            if n_lua_bad <= 3:
+                void, body = files[fi][ti][0], files[fi][ti][1]
+                ctx.violation("lua-voice:%s|%s" % (c15gen.serialise(void, body), " ".join(map(str, o))), "correspondence",
+                              "reference semantics disagrees with Lua 5.4 on a to-be-closed program: Lua prints [%s], ref_sem gives [%s]; program %s oracle %s"
+                              % (lua, ref, c15gen.serialise(void, body), o),
+                              detail={"lua_source": lua_src, "test": ti, "oracle": o, "no_longer_checks": "correspondence stream C15/lua-voice"},
+                              failing_input=False)
+
     n_reject_fail = 0
     for key, void, body in MUST_REJECT:
         d = os.path.join(work, "reject")
@@ -316,6 +387,44 @@ def correspond(ctx):
                           "a jump leaving a defer block is accepted by the analyzer (%s): the remaining defers of the scope being closed would be skipped; program %s" % (src, c15gen.serialise(void, body)),
                           detail={"program": c15gen.serialise(void, body), "nelua_source": src, "output": (out + err)[-600:],
                                   "replay": "nelua --analyze %s  (must fail with: cannot jump out of a `defer` block)" % src})
+
+    # ---- `accepted` (the hypothesis of the main theorem) against the real analyzer, around the boundary:
+    # programs whose exits are placed anywhere (outside loops / do-expressions, inside defer blocks, ...)
+    nb = ctx.scale(60, 1500)
+    bg = c15gen.Gen(rng, allow_escape=True, misplace=True, maxdepth=3)
+    bprogs = [bg.program() for _ in range(nb)]
+    bmodel = run_model(driver, [c15gen.serialise(v, b) + " | " for v, b in bprogs])
+    bdir = os.path.join(work, "boundary")
+    shutil.rmtree(bdir, ignore_errors=True)
+    os.makedirs(bdir)
+
+    def analyze_one(a):
+        i, (v, b) = a
+        src = os.path.join(bdir, "b%04d.nelua" % i)
+        with open(src, "w") as f:
+            f.write(c15gen.print_program([(v, b)]))
+        rc, out, err = vlib.nelua(["--analyze", src], interp=interp, timeout=120)
+        return src, rc, (out + err)
+    with concurrent.futures.ThreadPoolExecutor(max_workers=4) as ex:
+        bres = list(ex.map(analyze_one, enumerate(bprogs)))
+    n_b_acc = n_b_rej = n_b_bad = 0
+    for (v, b), m, (src, rc, txt) in zip(bprogs, bmodel, bres):
+        macc = m[3] == "1"
+        located = bool(re.search(r":\d+:\d+: error: ", txt))
+        if rc != 0 and not located:
+            ctx.violation("boundary-crash:%s" % c15gen.serialise(v, b), "harness", "nelua --analyze crashed on %s: %s" % (src, txt[-300:]), failing_input=False)
+            continue
+        iacc = rc == 0
+        n_b_acc += iacc
+        n_b_rej += (not iacc)
+        if iacc != macc:
+            n_b_bad += 1
+            if n_b_bad <= 4:
+                ctx.violation("accepted-mismatch:%s" % c15gen.serialise(v, b), "oracle" if iacc else "correspondence",
+                              "`accepted` (hypothesis of C15_defer_compile_correct) says %s but nelua --analyze %s: %s; program %s"
+                              % (macc, "accepts" if iacc else "rejects (%s)" % (re.findall(r"error: ([^\n]*)", txt) or ["?"])[0], src, c15gen.serialise(v, b)),
+                              detail={"program": c15gen.serialise(v, b), "nelua_source": src, "analyzer_output": txt[-600:],
+                                      "no_longer_checks": "correspondence stream C15/accepted"}, failing_input=iacc)
 
     def real_of(a):
         fi, ti, o = a
@@ -334,16 +443,15 @@ def correspond(ctx):
     tok_fail = []
     self_fail = []
     tok_checked = set()
-    esc_fail = []
 
     def ctoks_of(fi, ti, void):
         try:
-            return norm_tokens(" ".join(([] if void else ["V"]) + ["call("] + c15gen.c_tokens("zt%d" % ti, builds[fi]["funcs"]) + [")"]))
+            return norm_tokens(" ".join(([] if void else ["V"]) + ["call("] + c15gen.c_tokens("zt%d" % ti, builds[fi]["funcs"], 0, builds[fi]["pairs"]) + [")"]))
         except Exception as exn:  # noqa
             return "!tokenizer: %s" % exn
 
     exits = {"N": 0, "A": 0}
-    for (fi, ti, o), (ref, tgt, mtoks), real in zip(index, model, reals):
+    for (fi, ti, o), (ref, tgt, mtoks, _acc), real in zip(index, model, reals):
         void, body, orcs, stream, key, is_w = files[fi][ti]
         if real is None:
             continue
@@ -359,22 +467,12 @@ def correspond(ctx):
             tok_checked.add((fi, ti))
             feats |= c15gen.features(body)
             ctoks = mtoks if stream == "toplevel" else ctoks_of(fi, ti, void)
-            if ctoks != mtoks and stream in ("wf", "wf-deep", "targeted", "corpus"):
+            if ctoks != mtoks and stream in ("wf", "wf-deep", "targeted", "corpus", "lua-subset"):
                 tok_fail.append((c15gen.size(body), ser, mtoks, ctoks, builds[fi]["src"], ti))
-        if stream in ("escape", "closeorder"):
-            # deferred blocks that jump out of themselves: outside the theorem's domain (known finding 2);
-            # here only the model of the generator (closing flag) is tied: real trace vs tgt_sem(compile p)
-            if real != tgt:
-                esc_fail.append((c15gen.size(body), ser, o, tgt, real, builds[fi]["src"], ti))
-            if (fi, ti, 'tok') not in tok_checked:
-                tok_checked.add((fi, ti, 'tok'))
-                if ctoks_of(fi, ti, void) != mtoks:
-                    tok_fail.append((c15gen.size(body), ser, mtoks, ctoks_of(fi, ti, void), builds[fi]["src"], ti))
-            continue
         if real != ref_cmp:
             k = key if key else "prog:%s|%s" % (ser, " ".join(map(str, o)))
             oracle_fail.append((c15gen.size(body), k, ser, o, ref, real, builds[fi]["src"], ti, stream))
-        elif tgt != ref and stream in ("wf", "wf-deep", "targeted", "corpus"):
+        elif tgt != ref and stream in ("wf", "wf-deep", "targeted", "corpus", "lua-subset"):
             self_fail.append((c15gen.size(body), ser, o, ref, tgt))
 
     oracle_fail.sort(key=lambda x: (x[0], len(x[3])))
@@ -399,12 +497,6 @@ def correspond(ctx):
                       detail={"program": ser, "model_tokens": mtoks, "c_tokens": ctoks, "nelua_source": src,
                               "test_function": "zt%d" % ti, "no_longer_checks": "correspondence stream C15/tokens"},
                       failing_input=False)
-    for (sz, ser, o, tgt, real, src, ti) in sorted(esc_fail)[:3]:
-        ctx.violation("model-mismatch:escape", "correspondence",
-                      "deferred block jumping out of itself / late-typed <close> variable: the model of the generator (closing guard, close_order) gives [%s], the compiled program prints [%s]; program %s oracle %s" % (tgt, real, ser, o),
-                      detail={"program": ser, "oracle": o, "model": tgt, "implementation": real, "nelua_source": src,
-                              "test_function": "zt%d" % ti, "no_longer_checks": "correspondence stream C15/escape"},
-                      failing_input=False)
     for (sz, ser, o, ref, tgt) in sorted(self_fail)[:3]:
         ctx.violation("model-self:%s|%s" % (ser, o), "proof",
                       "model inconsistency inside the theorem's domain: tgt_sem(compile p) = [%s] but ref_sem p = [%s]" % (tgt, ref),
@@ -415,17 +507,17 @@ def correspond(ctx):
     return {
         "evaluations": n_eval,
         "distinct_nontrivial": len(nontrivial),
-        "rule": "cases = corpus (incl. the regression witnesses of the repaired defects) + 6 must-reject probes + random programs of the mini-language (streams wf / wf-deep / escape) x oracle scripts (all-ones, empty, random 0..3 of length 3..24); non-trivial = distinct (program, oracle) whose reference trace runs at least one deferred block",
+        "rule": "cases = corpus (incl. the regression witnesses of the repaired defects) + 6 must-reject probes + random programs of the mini-language (streams wf / wf-deep / targeted / lua-subset / toplevel) x oracle scripts (all-ones, empty, random 0..3 of length 3..24); non-trivial = distinct (program, oracle) whose reference trace runs at least one deferred block",
         "samples": [lines[0][:300], lines[len(lines) // 2][:300], lines[-1][:300]],
         "distribution": {"streams": dist, "programs": len(tok_checked), "files": len(files),
                          "distinct_exit_x_context_features": len(feats), "reference_outcomes": exits},
         "oracle_failures": len(oracle_fail),
         "token_mismatches": len(tok_fail),
         "model_self_mismatches": len(self_fail),
-        "escape_stream_mismatches": len(esc_fail),
         "must_reject_probes": len(MUST_REJECT), "must_reject_failures": n_reject_fail,
+        "lua_third_voice": {"runs": n_lua, "mismatches": n_lua_bad},
+        "accepted_vs_analyzer": {"programs": nb, "analyzer_accepts": n_b_acc, "analyzer_rejects": n_b_rej, "mismatches": n_b_bad},
         "traces_validated_against_impl": n_eval,
         "structural_comparisons": len(tok_checked),
-        "unproved": ["polymorphic/generic function bodies and `require`d files are not generated; main-chunk programs are compared by trace only (no token comparison)",
-                     "deferred blocks containing an early `in` or a break inside a switch are not generated (duplicate C labels when such a block is emitted twice: C03 matter)"],
+
     }
